@@ -33,7 +33,8 @@ func outputFileMapper(dctx *kong.DecodeContext, target reflect.Value) error {
 		return fmt.Errorf("target file already exists")
 	}
 
-	f, err := os.OpenFile(path, os.O_WRONLY|os.O_CREATE, os.ModePerm)
+	// O_EXCL: file may be created by somebody else after check above
+	f, err := os.OpenFile(path, os.O_WRONLY|os.O_CREATE|os.O_EXCL, os.ModePerm)
 	if err != nil {
 		return err
 	}
